@@ -8,6 +8,7 @@ import (
 	"fmt"
 	"os"
 	"sync"
+	"time"
 
 	"github.com/octohelm/gengo/pkg/inflector"
 
@@ -81,6 +82,7 @@ func volume(req *inflproto.Req) *inflproto.Resp {
 					if got := r.f(in); got != want {
 						report("%s(%q) = %q, want %q", r.name, in, got, want)
 					}
+					simsync.ClockTick()
 					checked++
 					if i%97 == 0 && i > 0 {
 						// an earlier input again: the same answer as the first time
@@ -113,12 +115,16 @@ func splitmix(x *uint64) uint64 {
 
 func serve(req *inflproto.Req) *inflproto.Resp {
 	resp := &inflproto.Resp{ID: req.ID}
+	simsync.ClockOn()
+	simsync.ClockAdvance(time.Duration(req.ClockJumpMS) * time.Millisecond)
+	simsync.ClockStep(time.Duration(req.ClockStepUS) * time.Microsecond)
 	switch req.Mode {
 	case "volume":
 		return volume(req)
 	case "seq":
 		for _, c := range req.Calls {
 			resp.Seq = append(resp.Seq, call(c))
+			simsync.ClockTick()
 		}
 	case "sched":
 		results := make([][]inflproto.Result, len(req.Clients))
